@@ -5,7 +5,7 @@ import std
 SPEC = {
     'prop_files': ['theories/Properties/C17.v'],
     'coq_targets': ['theories/Properties/C17.vo', 'theories/C17/Corr.vo'],
-    'closure_dirs': ['theories/C17', 'theories/Gen/Choice.v'],
+    'closure_dirs': ['theories/C17', 'theories/Gen/Choice.v', 'theories/Gen/ChoicePre.v'],
     'harness': 'c17',
     'args': {
         'quick': ['-rounds', 4],
@@ -16,10 +16,11 @@ SPEC = {
         'Gen/Choice.v is the translation (harness/cmd/srcgen/choice.go) of the if/else-if chains of encFnLoad and decFnLoad up to the kind switch, of the guard of extHandle.getExt, and of the checkExt constant passed by encoder.fn/fnNoExt and decoder.fn/fnNoExt; an unsupported construct is a translation failure',
         'the flags record abstracts a (type, handle) pair: typeInfo flags, rtid == time/Raw/RawExt, kind struct/array, an extension registered for the type, the handle facts binaryEncoding/json/timeBuiltin; the harness reads them through the verif hook',
         'the addressing step (encodeValue :1227-1236, decodeValueNoCheckNil :1561-1570) and the positions are hand modelled; tied by the position sweep (hook ran on both sides, round trip) on real Encoders/Decoders',
+        'Gen/ChoicePre.v is the translation (harness/cmd/srcgen/choice_pre.go) of what encodeValue does before `fn = e.fn(rv.Type())` (the kind switch at RV: nil exits, dereferences) and of decodeValue / decodeValueNoCheckNil before `fn = d.fn(rv.Type())` (TryNil, pointer loop); any statement there that is not a nil exit of the accepted shape is a translation failure',
         'user hooks are inverse to each other (the harness hooks are); the fast-path/kind branch after the chain is MKind',
         'safe/unsafe builds differ only in how an address is made (rvAddr / addrRV); not modelled',
     ],
-    'trusted_extra': ['translated: guard chains (Gen/Choice.v); modelled, not verified: addressing step, reflection, the ext framing of each driver'],
+    'trusted_extra': ['translated: guard chains (Gen/Choice.v), the step before the function lookup (Gen/ChoicePre.v); modelled, not verified: addressing step, reflection, the ext framing of each driver'],
 }
 
 def main(chk):
@@ -27,7 +28,7 @@ def main(chk):
 
 MANIFEST = {
     'category': 'proof',
-    'technique': 'translator (go/ast + go/types) from encFnLoad/decFnLoad/getExt/fn to Gallina + Coq proofs by exhaustive case analysis over all 2^24 flag vectors + vm_compute correspondence of the mechanism observed per (type, handle) + direct oracle over 16 types x 10 positions x root by value/pointer x 5 formats (hook symmetry, round trip, documented precedence)',
-    'text': 'For ALL flag vectors: encode and decode choose the same mechanism (C17_choice); a custom mechanism is chosen only when both halves exist and the format class fits (C17_both_halves); the choice is the documented precedence time/Raw/RawExt > extension (when looked up) > Selfer > Binary | JSON > Text > kind (C17_precedence); the chosen function is handed a value on which its type assertion succeeds, in every position (C17_cast_ok, C17_position, C17_addr); with inverse hooks a value round-trips through whatever is chosen (C17_rt); the builtin type-switch shortcut (top level, fields, elements, map keys/values) is taken on both sides or on neither for every builtin type (C17_builtin_positions, lists translated from encode.base.go / decode.base.go) and, since the repair of F17-2, never for time.Time under TimeNotBuiltin (C17_time_not_builtin, guards translated from encodeBuiltin / decode). The statement that a registered extension is selected on the normal path is refuted on the current tree (C17_ext_refuted, finding F17-1: fn passes checkExt=false) and proved in its guarded form (C17_ext_when_checked).',
+    'technique': 'translator (go/ast + go/types) from encFnLoad/decFnLoad/getExt/fn to Gallina + Coq proofs by exhaustive case analysis over all 2^24 flag vectors + vm_compute correspondence of the mechanism observed per (type, handle) + direct oracle over 25 types x 19 positions x root by value/pointer x 5 formats (hook symmetry, round trip, documented precedence) + seed-independent sweep of 39 custom-coded types of every underlying kind (map, slice, []byte, array, chan, one-pointer struct/array, bool, float, string, int, uint8; Selfer by value and pointer receiver, Binary, Text, JSON pairs) x value classes (nil, empty-not-nil, one, two elements, zero value, nil pointer to X) x 19 positions x root by value/pointer x 5 formats x 4 option vectors, with hook-call counts (encode calls == decode calls == one per X held, none for nil) + translation of the step before the function lookup (encodeValue kind switch, decodeValue TryNil / pointer loop)',
+    'text': 'For ALL flag vectors: encode and decode choose the same mechanism (C17_choice); a custom mechanism is chosen only when both halves exist and the format class fits (C17_both_halves); the choice is the documented precedence time/Raw/RawExt > extension (when looked up) > Selfer > Binary | JSON > Text > kind (C17_precedence); the chosen function is handed a value on which its type assertion succeeds, in every position (C17_cast_ok, C17_position, C17_addr); with inverse hooks a value round-trips through whatever is chosen (C17_rt); the builtin type-switch shortcut (top level, fields, elements, map keys/values) is taken on both sides or on neither for every builtin type (C17_builtin_positions, lists translated from encode.base.go / decode.base.go) and, since the repair of F17-2, never for time.Time under TimeNotBuiltin (C17_time_not_builtin, guards translated from encodeBuiltin / decode). Before the function is looked up only nil leaves the encoder, written as nil, and exactly then the decoder leaves before its lookup; every non-nil value (empty map, empty slice, zero value) reaches the chosen function (C17_pre_nonnil_looks_up, C17_pre_dec_nonnil_looks_up, C17_pre_nil_symmetric, C17_pre_hooks_symmetric; Gen/ChoicePre.v translated from encodeValue / decodeValue); with NilCollectionToZeroLength this is refuted on the current tree (C17_pre_refuted, finding F17-4: a nil custom-coded map / slice / chan is written as an empty collection without its encode hook and read with its decode hook). The statement that a registered extension is selected on the normal path is refuted on the current tree (C17_ext_refuted, finding F17-1: fn passes checkExt=false) and proved in its guarded form (C17_ext_when_checked).',
     'note': 'Trusted: Coq kernel, the translator choice.go (accepted subset documented in its header), the hook reading typeInfo flags, the harness types/hooks, Go toolchain. Round trip in all positions is established by the harness sweep, not by a theorem about the drivers\' ext framing.',
 }
